@@ -213,7 +213,11 @@ func (a *sparseArrayObject) setOwnStr(name unistring.String, val Value, throw bo
 				a.val.runtime.typeErrorResult(throw, "length is not writable")
 				return false
 			}
-			return a.setLength(a.val.runtime.toLengthUint32(val), throw)
+			l := a.val.runtime.toLengthUint32(val)
+			if cur := curStdArray(a.val, a); cur != nil {
+				return cur.setOwnStr(name, intToValue(int64(l)), throw)
+			}
+			return a.setLength(l, throw)
 		} else {
 			return a.baseObject.setOwnStr(name, val, throw)
 		}
@@ -393,6 +397,12 @@ func (a *sparseArrayObject) defineOwnPropertyStr(name unistring.String, descr Pr
 		return a._defineIdxProperty(idx, descr, throw)
 	}
 	if name == "length" {
+		if descr.Value != nil {
+			descr.Value = intToValue(int64(a.val.runtime.toLengthUint32(descr.Value)))
+			if cur := curStdArray(a.val, a); cur != nil {
+				return cur.defineOwnPropertyStr(name, descr, throw)
+			}
+		}
 		return a.val.runtime.defineArrayLength(a.getLengthProp(), descr, a.setLength, throw)
 	}
 	return a.baseObject.defineOwnPropertyStr(name, descr, throw)
